@@ -3,6 +3,7 @@ module github.com/meshplus/bitxhub/verif
 go 1.14
 
 require (
+	github.com/Knetic/govaluate v3.0.1-0.20171022003610-9aa49832a739+incompatible
 	github.com/anishathalye/porcupine v1.3.0
 	github.com/bytecodealliance/wasmtime-go v0.37.0
 	github.com/cbergoon/merkletree v0.2.0
